@@ -341,7 +341,6 @@ class Tr:
         self.err(e, "unsupported call")
 
     def subscript(self, e):
-        v, tv = self.expr(e.value)
         idx = e.slice.elts if isinstance(e.slice, ast.Tuple) else [e.slice]
         if self.s.cell and isinstance(e.value, ast.Name) and e.value.id in self.s.cell["arrays"]:
             t, ivars = self.s.cell["arrays"][e.value.id]
@@ -351,6 +350,7 @@ class Tr:
             if name not in self.env:
                 self.err(e, "output cell read before it is written")
             return self.env[name]
+        v, tv = self.expr(e.value)
         if isinstance(tv, tuple) and tv[0] == "A":
             if len(idx) != tv[2]:
                 self.err(e, "number of indices")
@@ -574,10 +574,10 @@ class Tr:
             o_ = self.block(list(st.orelse) + ([] if jo else list(rest)), ind + 4, k_cont, k_ret)
             self.env = env0
             return pad + f"if {c} then\n{b}\n{pad}else\n{o_}"
-        names = [n for n in self.assigned([st])]
-        missing = [n for n in names if n not in self.env]
-        if missing:
-            self.err(st, f"variables {missing} are assigned in a branch only")
+        # variables first assigned inside a branch are local to it (a later use is an unknown name and is refused)
+        names = [n for n in self.assigned([st]) if n in self.env]
+        if not names:
+            self.err(st, "conditional without effect on the variables defined before it")
         types = [self.env[n][1] for n in names]
         env0 = dict(self.env)
         b = self.block(list(st.body), ind + 4, lambda: self.state_tuple(names), k_ret)
@@ -612,6 +612,7 @@ class Tr:
             self.err(st, "loop without state")
         types = [self.env[n][1] for n in state]
         env0 = dict(self.env)
+        init = "(" + ", ".join(env0[n][0] for n in state) + ")" if len(state) > 1 else env0[state[0]][0]
         self.env[v] = (v, N)
         self.bind_state(state, types)
 
@@ -621,7 +622,6 @@ class Tr:
         body = self.block(list(st.body), ind + 6, lambda: self.state_tuple(state), no_return)
         self.env = env0
         self.bind_state(state, types)
-        init = self.state_tuple(state) if False else ("(" + ", ".join(env0[n][0] for n in state) + ")" if len(state) > 1 else env0[state[0]][0])
         return (pad + f"let {self.pattern(state)} := {rng}.foldl (fun {self.pattern(state)} {v} =>\n{body}) {init}\n"
                 + self.block(rest, ind, k_cont, k_ret))
 
@@ -645,7 +645,9 @@ class Tr:
                 after = body[body.index(loop) + 1:]
                 if any(not isinstance(x, ast.Return) or x.value is not None for x in after):
                     raise TranslateError(f"{s.file}:{s.name}: statements after the loop over {var}")
-                self.range_of(loop.iter, loop)  # must be a range
+                if not (isinstance(loop.iter, ast.Call) and ast.unparse(loop.iter.func) in ("range", "numba.prange", "prange")
+                        and len(loop.iter.args) == 1 and not loop.iter.keywords):
+                    raise TranslateError(f"{s.file}:{s.name}: the loop over {var} is not over range(n)")
                 self._cell_ranges = getattr(self, "_cell_ranges", []) + [(var, ast.unparse(loop.iter))]
                 body = pre + list(loop.body)
             for name, (t, ivars) in s.cell["arrays"].items():
